@@ -64,7 +64,7 @@ type Case struct {
 
 func TestMain(m *testing.M) {
 	h.Setup("C14",
-		"histories (3-10 steps) of timed long matches (work >> timeout), timed quick matches (work << timeout), idle gaps shorter and longer than timeout + clock slop, StopTimeoutClock calls, groups of 2-4 concurrent timed matches with different deadlines, and untimed matches, timeouts 10 ms - 2 s, clock period 1 ms, run inside a testing/synctest bubble (virtual time: the harness owns the clock) against the unmodified clock code; a registered engine polls CheckTimeout every 50 virtual microseconds; one evaluation = one history; oracle: a long match returns a timeout error at virtual elapsed in [d-2ms, d+4ms], a quick match returns at exactly its work time without error, the clock goroutine is gone 1 s + 5 ms after the last deadline and after StopTimeoutClock, and is restarted on demand; plus a small wall-clock leg with real catastrophic patterns through the real interpreter; non-trivial = a history with a timeout that follows an idle gap longer than the previous deadline + slop, or follows StopTimeoutClock, or overlaps another deadline; distinct = hash of the history",
+		"histories (3-10 steps) of timed long matches (work >> timeout), timed quick matches (work << timeout), idle gaps shorter and longer than timeout + clock slop, StopTimeoutClock calls, groups of 2-4 concurrent timed matches with different deadlines, and untimed matches, timeouts 10 ms - 2 s, clock period 1 ms, all calls of a history that use one timeout value sharing one Regexp (3 of 4 histories; the pooled interpreter state and its deadline field are reused) or a fresh Regexp per call, run inside a testing/synctest bubble (virtual time: the harness owns the clock) against the unmodified clock code; a registered engine polls CheckTimeout every 50 virtual microseconds; one evaluation = one history; oracle: a long match returns a timeout error at virtual elapsed in [d-2ms, d+4ms], a quick match returns at exactly its work time without error, the clock goroutine is gone 1 s + 5 ms after the last deadline and after StopTimeoutClock, and is restarted on demand; plus a small wall-clock leg with real catastrophic patterns through the real interpreter; non-trivial = a history with a timeout that follows an idle gap longer than the previous deadline + slop, or follows StopTimeoutClock, or overlaps another deadline; distinct = hash of the history",
 		map[string]float64{"timeout-after-long-idle": 0.15, "timeout-after-stop": 0.15, "concurrent": 0.3, "race-on-stopped-clock": 0.2},
 		"virtual time replaces the interpreter by a stub that polls CheckTimeout; that the real interpreter polls often enough is only covered by the lenient wall-clock leg")
 	h.Main(m)
